@@ -82,7 +82,8 @@ Inductive event :=
   | EvCrash (a : aid)
   | EvStreamClose (a : aid)
   | EvBcastBegin (a : aid) (ty : nat)
-  | EvTimerSleep (a : aid) (k : nat) (d : nat).
+  | EvTimerSleep (a : aid) (k : nat) (d : nat)
+  | EvProbe (a : aid) (o : oid).
 
 (** * Decoding a line of numbers *)
 Definition dec_bool (n : nat) : bool := negb (Nat.eqb n 0).
@@ -360,6 +361,11 @@ Definition decode (l : list nat) : option event :=
     | 42 =>
       match args with
       | [a; k; d] => Some (EvTimerSleep a k d)
+      | _ => None
+      end
+    | 43 =>
+      match args with
+      | [a; o] => Some (EvProbe a o)
       | _ => None
       end
     | _ => None
